@@ -1,4 +1,5 @@
-"""Regenerates every Gen artefact (used by setup; checks regenerate what they need)."""
+"""Regenerates every Gen artefact from /repo's working tree:
+T-src (rs2coq) -> facts, harness stubs -> harness build -> T-dump -> coq/Gen/*.v"""
 import json
 import os
 import core
@@ -12,18 +13,58 @@ def load_ref(name):
         return json.load(f)
 
 
-def all_gen(facts, build=True):
+class Prep:
+    def __init__(self):
+        self.facts = None
+        self.broken = []      # list of {"lemma":..., "error":...}
+        self.exe = None
+        self.dump_spirv = None
+        self.dump_grammar = None
+
+    def failures(self, prefixes):
+        return [f for f in self.facts["failures"] if any(f.startswith(p) for p in prefixes)]
+
+
+def prepare(release=False):
+    p = Prep()
+    p.facts = core.run_rs2coq()
+    facts = p.facts
     gen_harness.gen_spirv(facts["spirv"])
-    exe, err = core.build_harness(release=False)
-    if exe is None:
-        log("harness build failed:\n" + err[-2000:])
-        return
-    if build:
-        core.build_harness(release=True)
-    dpath = os.path.join(CACHE, "dump_spirv.json")
-    core.run([exe, "dump-spirv", os.path.join(CACHE, "facts.json"), dpath])
-    with open(dpath) as f:
-        dump = json.load(f)
+    gen_harness.gen_reflect(facts["reflect"])
+    p.exe, err = core.build_harness(release=False)
+    if p.exe is None:
+        p.broken.append({"lemma": "harness build (T-dump call stubs generated from T-src)", "error": err[-3000:]})
+    else:
+        d1 = os.path.join(CACHE, "dump_spirv.json")
+        rc, out, _ = core.run([p.exe, "dump-spirv", os.path.join(CACHE, "facts.json"), d1])
+        if rc == 0:
+            with open(d1) as f:
+                p.dump_spirv = json.load(f)
+        else:
+            p.broken.append({"lemma": "harness dump-spirv", "error": out[-2000:]})
+        d2 = os.path.join(CACHE, "dump_grammar.json")
+        rc, out, _ = core.run([p.exe, "dump-grammar", d2])
+        if rc == 0:
+            with open(d2) as f:
+                p.dump_grammar = json.load(f)
+        else:
+            p.broken.append({"lemma": "harness dump-grammar", "error": out[-2000:]})
+    if release:
+        p.rexe, err = core.build_harness(release=True)
+    # Coq data
     gen_coq.gen_spirv(facts["spirv"], "SpirvData", "spirv/autogen_spirv.rs via rs2coq")
     gen_coq.gen_spirv(load_ref("spirv.json"), "RefSpirv", "ref/spirv.json")
-    gen_coq.gen_spirv_dump(dump, "DumpSpirv")
+    gen_coq.gen_table(facts["table"], "TableData", "rspirv/grammar/autogen_*.rs via rs2coq")
+    gen_coq.gen_table(load_ref("table.json"), "RefTable", "ref/table.json")
+    gen_coq.gen_reflect(facts["reflect"], facts["builder"], "ReflectData", "rspirv/grammar/reflect.rs, rspirv/dr/build/*.rs via rs2coq")
+    gen_coq.gen_ref_classes(load_ref("opclass.json"), "RefClasses")
+    if p.dump_spirv is not None:
+        gen_coq.gen_spirv_dump(p.dump_spirv, "DumpSpirv")
+    if p.dump_grammar is not None:
+        gen_coq.gen_table_dump(p.dump_grammar, facts["table"]["kinds"], "DumpTable")
+        gen_coq.gen_reflect_dump(p.dump_grammar, "DumpReflect")
+    return p
+
+
+def all_gen(facts=None, build=True):
+    return prepare(release=build)
